@@ -677,6 +677,29 @@ func genPair(r *rng.R, settle bool) (pair, bool) {
 			fam += "+nearmiss"
 		}
 	}
+	if settle && r.P(1, 10) {
+		// an open subpath (the last one is not closed): fills close it implicitly
+		if d := P.Data(); len(d) > 4 && d[len(d)-1] == canvas.CloseCmd {
+			q := &canvas.Path{}
+			segs, err := pd.Decode(d)
+			if err == nil {
+				for k, sg := range segs {
+					switch sg.Cmd {
+					case 'M':
+						q.MoveTo(sg.X, sg.Y)
+					case 'L':
+						q.LineTo(sg.X, sg.Y)
+					case 'Z':
+						if k < len(segs)-1 {
+							q.Close()
+						}
+					}
+				}
+				P = q
+				fam += "+open"
+			}
+		}
+	}
 	x0, y0, x1, y1 := ipP.Bounds()
 	if !settle {
 		a, b, c, d := ipQ.Bounds()
